@@ -32,6 +32,16 @@ ASSUMPTIONS = ['all k-tables of one run share the quadrature weights (the code t
 MOLS = ['H2O', 'CH4', 'CO2', 'CO', 'NH3']
 
 
+
+def _invalid_params(ctx, e):
+    """a parameter set the model itself rejects as invalid (InvalidModelException and subclasses) is outside every
+    property's quantifier: recorded in the malformed stream, never judged"""
+    from taurex.exceptions import InvalidModelException
+    if isinstance(e, InvalidModelException):
+        ctx.malformed_outcome('invalid-model-after-setters:' + type(e).__name__)
+        return True
+    return False
+
 def gen_case(rng, k, thorough=False):
     family = 'transmission' if k % 2 == 0 else 'emission'
     tkind = 'degenerate' if (k // 2) % 2 == 0 else 'generic'
@@ -388,6 +398,8 @@ def reuse_case(ctx, c, scratch, nsteps=3):
                 ok = E.observe_model(m, kind)
                 fresh = E.observe_model(E.build_model(kind, dict(case['spec'])), kind)
             except Exception as e:
+                if _invalid_params(ctx, e):
+                    return
                 ctx.violation('stale-state:raises:' + p, 'k-mode model raised %r after a change' % (e,), case)
                 return
             ctx.bucket('reuse:' + p)
